@@ -231,6 +231,103 @@ func checkC12(c *Ctx) {
 		}
 	}
 
+	// Replace empties the in-memory relation field once per source record, not once per target argument:
+	// inside a loop whose iterations work on the SAME source, the `clear` argument is true for the first
+	// iteration only
+	rclr := c.Rule("C12.clear-once", "saveAssociation clears the in-memory field once per source record", 2)
+	{
+		sa := p.MethodDecl(pkgGorm, "Association", "saveAssociation")
+		info := sa.Pkg.TypesInfo
+		clearParam := paramName(sa, 0)
+		for _, f := range append([]*FuncSrc{sa}, p.AllLits(sa)...) {
+			parents := parentMap(f.Body)
+			ast.Inspect(f.Body, func(n ast.Node) bool {
+				if lit, ok := n.(*ast.FuncLit); ok && lit != f.Lit {
+					return false
+				}
+				call, ok := n.(*ast.CallExpr)
+				if !ok || len(call.Args) != 3 {
+					return true
+				}
+				id, ok := call.Fun.(*ast.Ident)
+				if !ok {
+					return true
+				}
+				// a call of a local closure whose last argument involves the clear parameter
+				if _, isVar := info.Uses[id].(*types.Var); !isVar {
+					return true
+				}
+				mentionsClear := false
+				ast.Inspect(call.Args[2], func(x ast.Node) bool {
+					if cid, ok := x.(*ast.Ident); ok && cid.Name == clearParam {
+						mentionsClear = true
+					}
+					return true
+				})
+				if !mentionsClear {
+					return true
+				}
+				c.Touch(sa)
+				// enclosing loop and its index variable
+				var loopVars []string
+				for cur := ast.Node(call); cur != nil; cur = parents[cur] {
+					switch l := parents[cur].(type) {
+					case *ast.RangeStmt:
+						if k, ok := l.Key.(*ast.Ident); ok && k.Name != "_" {
+							loopVars = append(loopVars, k.Name)
+						}
+						if v, ok := l.Value.(*ast.Ident); ok && v.Name != "_" {
+							loopVars = append(loopVars, v.Name)
+						}
+						if l.Key == nil || func() bool { k, ok := l.Key.(*ast.Ident); return ok && k.Name == "_" }() {
+							loopVars = append(loopVars, "\x00noindex")
+						}
+					case *ast.ForStmt:
+						if as, ok := l.Init.(*ast.AssignStmt); ok && len(as.Lhs) == 1 {
+							if k, ok := as.Lhs[0].(*ast.Ident); ok {
+								loopVars = append(loopVars, k.Name)
+							}
+						}
+					}
+				}
+				if len(loopVars) == 0 {
+					rclr.OK(sa.Name(), "clear outside a loop", call.Pos(), "single call")
+					return true
+				}
+				// does the source (first argument) change with the loop?
+				srcVaries := false
+				ast.Inspect(call.Args[0], func(x ast.Node) bool {
+					if vid, ok := x.(*ast.Ident); ok {
+						for _, lv := range loopVars {
+							if vid.Name == lv {
+								srcVaries = true
+							}
+						}
+					}
+					return true
+				})
+				if srcVaries {
+					rclr.OK(sa.Name(), "clear per source record", call.Pos(), "the source changes with the loop")
+					return true
+				}
+				// same source on every iteration: clear only on the first one
+				bf := boolTable(info, call.Args[2])
+				firstOnly := false
+				for name := range bf.exprs {
+					for _, lv := range loopVars {
+						if name == lv+" == 0" {
+							if okf, _ := bf.forAll(map[string]bool{name: false}, false); okf {
+								firstOnly = true
+							}
+						}
+					}
+				}
+				rclr.Check(firstOnly, sa.Name(), "clear only on the first target", call.Pos(), "clear && idx == 0", "every target argument of one Replace call empties the in-memory relation field of the same record again: only the last argument's targets survive (the others are unlinked or never inserted)")
+				return true
+			})
+		}
+	}
+
 	checkReturningCursor(c, c.Rule("C12.returning-cursor", "gorm.Scan advances the record cursor only under rows.Next()", 4))
 
 	r.Check(nRecord >= 3 && nLink >= 2 && nDetach >= 3, "gorm.Association", "census", assocT.Obj().Pos(), itoa(nRecord)+" record deletions, "+itoa(nLink)+" link deletions, "+itoa(nDetach)+" detaching updates", "association mode lost its record/link deletion sites; rule lost its anchors")
@@ -393,6 +490,8 @@ func checkC15(c *Ctx) {
 
 	// a reader chained on Count's result sees the caller's SELECT again (Count and Find agree on one chain)
 	checkCountRestores(c, c.Rule("C15.count-restore", "Count restores its temporary SELECT / ORDER BY changes on the statement it made them on", 2))
+
+	checkRowsCount(c)
 
 	// ---- C15.cursor-group ----
 	// FindInBatches continues after the last key of a batch by adding `pk > ?` to the chain.  Like the
@@ -699,6 +798,7 @@ func checkC20(c *Ctx) {
 	checkC20Default(c)
 	checkC20NameAgree(c)
 	checkC20CreateAgree(c)
+	checkC20DDLTable(c)
 
 	// ---- C20.guarded-add ----
 	rg := c.Rule("C20.guarded-add", "every additive DDL call in AutoMigrate is conditional on absence (and MigrateColumn on presence)", 6)
